@@ -11,6 +11,12 @@ ENGINES = [
 NOT_YET = {}
 TB = "Trusted: Lean kernel; axioms ⊆ {propext, Quot.sound, Classical.choice}; the translator; the harness + canonicalisation; "
 META = {
+    "C09": {
+        "text": "Each operation is modelled as the block reads/writes of src/sequence.rs over a buffer with possibly-uninitialised slots, at element offsets, copy counts and bounds guards regenerated from the source by a small pointer evaluator (pointee stride, .add/.offset, casts). Theorems for every length: append = push, prepend = insert(0), pop_back = pop, pop_front = remove(0), split = split_at(K), concat = extend, remove = Vec::remove, swap_remove = Vec::swap_remove, out-of-range indices panic before the ManuallyDrop (array dropped whole), reference split = adjacent disjoint covering sub-ranges; `some` results establish that no access leaves the buffer and no slot stays uninitialised. Correspondence: the real operations vs the model and vs Vec for 5 element kinds incl. zero-sized and drop-tracked.",
+        "design_ref": "§5 C09",
+        "note": TB + "modelled not verified: ptr::read/write/copy, slice::swap; typenum's Add1/Sub1/Diff/Sum.",
+        "technique": "Lean 4 list proofs over regenerated offsets (pointer evaluator) + Vec differential correspondence",
+    },
     "C08": {
         "text": "For a non-panicking closure g and every N: generate_spec (calls 0..N-1 in order, result i = g i), map_spec (4 forms), zip_spec (every form pair and both needs_drop branches: call i receives (a[i], b[i]) in ascending order once each), fold_spec, clone_spec, default_spec, and map/zip_form_independent. Proved by induction on the remaining elements for *every* way an operand can be held (Side), so form and branch selection cannot matter; the dispatch (which body serves which form) and the closure bodies are regenerated from lib.rs/sequence.rs/functional.rs/impls.rs. Correspondence: ordered call logs of recording closures on the real crate, drop-tracked and plain element types.",
         "design_ref": "§5 C08",
